@@ -83,8 +83,13 @@ pub fn prove_body(
                 }
                 BodyPredicate::Negated(atom) => {
                     let bound = substitute_atom(atom, bindings);
-                    let matches = find_matching_tuples(&atom.relation, &bound, ctx.base_data);
-                    if matches.is_empty() {
+                    // The negated relation may be a derived one: its tuples are in derived_data.
+                    let blocked = !find_matching_tuples(&atom.relation, &bound, ctx.base_data)
+                        .is_empty()
+                        || ctx.derived_data.is_some_and(|derived| {
+                            !find_matching_tuples(&atom.relation, &bound, derived).is_empty()
+                        });
+                    if !blocked {
                         let pattern_str = format_bound_terms(&bound);
                         let node_id = builder.insert_unique(ProofNode {
                             kind: NodeKind::Negation,
